@@ -108,7 +108,11 @@ where
         should_continue: impl std::ops::Fn() -> bool + Clone,
     ) -> V {
         debug!("solve_root_goal(canonical_goal={:?})", canonical_goal);
-        assert!(self.stack.is_empty());
+        // An earlier call may have unwound through this context (a database
+        // callback panicked, or the overflow depth was reached) and left its
+        // in-progress goals behind. Those are not results: start afresh.
+        self.stack.clear();
+        self.search_graph.clear();
         let minimums = &mut Minimums::new();
         self.solve_goal(canonical_goal, minimums, solver_stuff, should_continue)
     }
